@@ -577,6 +577,7 @@ def run(F, rep, tier):
     tc.dropped_results(F, rep, "DROPPED-ERROR", ["sylt_compiler::typechecker::", "sylt_compiler::name_resolution::", "sylt_compiler::dependency::"])
     import c07
     c07.visit_loops_complete(F, rep)
+    values_are_not_void(F, rep)
 
 # every variable-valued field of the resolved AST, classified by reading name_resolution.rs: a *binder* introduces the
 # variable (the resolver fills it from new_var/push_var), a *use* refers to one found by lookup
@@ -595,6 +596,44 @@ BINDER_SITES = {
     ("Expression", "Blob", "self_var"): ("expression", "self_var"),
     ("CaseBranch", "CaseBranch", "variable"): ("expression", "branches[*].variable[*]"),
 }
+
+
+def values_are_not_void(F, rep, rule="VOID-FREE"):
+    """`void` has no values: it cannot be stored - not in a variable (Constraint::Variable on definitions and call arguments),
+    and not inside what is stored either.  Every position that puts the value of a child expression into a composite (tuple and
+    list elements, the fields of a blob literal, the payload of a variant) requires that child to be a value."""
+    fexpr = F.fn(TC + "expression")
+    body = fn_body(fexpr)
+    n = 0
+    seen = {}
+    for m in matches_on(body, "sylt_compiler::name_resolution::Expression"):
+        for arm, alt, vp in arm_alternatives(m):
+            if not vp or last(vp) not in ("Collection", "Blob", "Variant"):
+                continue
+            kids = []
+            for st in nodes(arm["body"], "Let"):
+                init = st.get("init")
+                if init is None:
+                    continue
+                if any(callee(c) == TC + "expression" for c in nodes(init, "MethodCall")):
+                    bs = pat_bindings(st["pat"])
+                    if len(bs) >= 2:
+                        kids.append((bs[1], st))
+            for b, st in kids:
+                n += 1
+                guarded = any(callee(c) == TC + "add_constraint" and tc.constraint_name(c["args"][2]) == "Variable" and
+                              tc.local_hid(c["args"][0]) == b["hid"] for c in nodes(arm["body"], "MethodCall"))
+                what = {"Collection": "element", "Blob": "field value", "Variant": "payload"}[last(vp)]
+                key = "expression|%s|%s" % (last(vp), b["name"])
+                seen[key] = seen.get(key, 0) + 1
+                if seen[key] > 1:
+                    key += "#%d" % seen[key]
+                rep.ob(rule, key, guarded,
+                       "the %s `%s` of a %s must be a value (Constraint::Variable)" % (what, b["name"], last(vp)) if guarded else
+                       "the %s of a %s may be `void`: `x := (nothing(), 1)` / `[nothing()]` / `B { f: nothing() }` / `E.V nothing()` "
+                       "store a void inside a value - at run time a nil that shortens lists and breaks tuple indexing" % (what, last(vp)),
+                       line_of(st))
+    rep.floor(rule, "children stored into composites", n, 4)
 
 
 def binder_typed(F, rep, rule="BINDER-TYPED"):
